@@ -187,7 +187,12 @@ impl<'a> Gen<'a> {
             for j in 0..nx {
                 let mut args = Vec::new();
                 // xtor 0 of every data type has only integer fields, so values of every type can be built
-                let nf = if j == 0 && !codata { self.rng.below(3).min(self.cfg.max_fields) } else { self.rng.below(self.cfg.max_fields + 1) };
+                let mut nf = if j == 0 && !codata { self.rng.below(3).min(self.cfg.max_fields) } else { self.rng.below(self.cfg.max_fields + 1) };
+                // now and then a destructor with so many parameters that the invoked closure itself
+                // sits in a spill slot (position >= 13 on AArch64, >= 6 on x86-64)
+                if codata && self.cfg.max_live >= 18 && self.rng.pct(5) {
+                    nf = 12 + self.rng.below(4);
+                }
                 for _ in 0..nf {
                     let k = self.rng.below(10);
                     let b = if k < 5 || (j == 0 && !codata) {
